@@ -79,6 +79,9 @@ theorem lookupRes_fresh (s : Sys) (rid : RunId) : (lookupRes s rid 0).2 = s.cur 
 
 theorem pure_run {α : Type} (a : α) (env : Env) (st : OpSt) : (pure a : M α) env st = (.ok a, st) := rfl
 theorem throwA_run {α : Type} (a : Abort) (env : Env) (st : OpSt) : (throwA a : M α) env st = (.error a, st) := rfl
+/-- a user function that fails while its process loses the role: the failure is what the caller sees -/
+theorem loseLease_throw_run {α : Type} (a : Abort) (env : Env) (st : OpSt) :
+    ((loseLease >>= fun _ => (throwA a : M α)) env st) = (.error a, { st with cancelled := !st.isApi }) := rfl
 
 /-- a fault-free, live `Store`: exactly one write -/
 theorem store_run_ok (cfg : Cfg) (r : Rec) (env : Env) (st : OpSt) (hc : st.cancelled = false)
